@@ -106,6 +106,9 @@ func runCase(c Case) (string, stats) {
 	readOpen := false
 	var readMsg []byte // message B has opened
 	readDone := 0
+	stalled := false      // B tried to open a message whose final frame has not arrived yet: frames of it are consumed
+	var stallLast []byte  // the final frame A still holds back
+	var stallWhole []byte // the whole message
 	seq := uint32(100)
 	handed := false
 
@@ -149,10 +152,10 @@ func runCase(c Case) (string, stats) {
 	}
 
 	for oi, op := range c.Ops {
-		boundaryB := sendState == "clean" && !readOpen
+		boundaryB := sendState == "clean" && !readOpen && !stalled
 		switch op.K {
 		case "a2b":
-			if readOpen {
+			if readOpen || stalled {
 				continue
 			}
 			w0 := len(p.CA.WriteLog)
@@ -244,7 +247,7 @@ func runCase(c Case) (string, stats) {
 				sendState = "clean"
 			}
 		case "bopen": // B opens a message read and consumes part of it
-			if readOpen {
+			if readOpen || stalled {
 				continue
 			}
 			w0 := len(p.CA.WriteLog)
@@ -270,6 +273,49 @@ func runCase(c Case) (string, stats) {
 				}
 				readDone = g
 			}
+		case "bstall": // A sends all but the final frame of a message; B's attempt to open it fails half-way
+			if readOpen || stalled || len(op.Sizes) < 2 {
+				continue
+			}
+			w0 := len(p.CA.WriteLog)
+			stallWhole = nil
+			for j, n := range op.Sizes {
+				pl := kit.Pattern(n, c.Salt+seq)
+				seq++
+				stallWhole = append(stallWhole, pl...)
+				if j == len(op.Sizes)-1 {
+					stallLast = pl
+					break
+				}
+				if err := A.SendPartialMessage(kit.Bg, pl); err != nil {
+					return fmt.Sprintf("op %d: A send: %v", oi, err), st
+				}
+			}
+			n := mark(p.CA, protA, w0, modeOn)
+			if err := B.StartMessageRead(kit.Bg); err == nil {
+				return fmt.Sprintf("op %d: StartMessageRead reported a complete message although its final frame has not been sent", oi), st
+			}
+			if modeOn {
+				recvProt += n
+			}
+			stalled = true
+		case "bresume": // the final frame arrives; B opens the message again
+			if !stalled {
+				continue
+			}
+			w0 := len(p.CA.WriteLog)
+			if err := A.SendMessage(kit.Bg, stallLast); err != nil {
+				return fmt.Sprintf("op %d: A send: %v", oi, err), st
+			}
+			n := mark(p.CA, protA, w0, modeOn)
+			if modeOn {
+				recvProt += n
+			}
+			stalled = false
+			if err := B.StartMessageRead(kit.Bg); err != nil {
+				return "", st // the receiver gave the message up: allowed, nothing more to follow in this history
+			}
+			readOpen, readMsg, readDone = true, stallWhole, 0
 		case "bclose": // consume the rest and close the read
 			if !readOpen {
 				continue
@@ -295,12 +341,12 @@ func runCase(c Case) (string, stats) {
 			B.SetCryptoMode(modeOn)
 		case "export", "handoff":
 			blob, err := B.ExportCryptoState()
-			mustRefuse := !keyed || !modeOn || sentProt == 0 || recvProt == 0 || sendState == "buffered" || readOpen
+			mustRefuse := !keyed || !modeOn || sentProt == 0 || recvProt == 0 || sendState == "buffered" || readOpen || stalled
 			either := sendState == "eom"
 			switch {
 			case mustRefuse && err == nil:
-				return fmt.Sprintf("op %d: ExportCryptoState succeeded although it must refuse (keyed=%v encrypting=%v protected frames sent=%d received=%d send=%s readOpen=%v)",
-					oi, keyed, modeOn, sentProt, recvProt, sendState, readOpen), st
+				return fmt.Sprintf("op %d: ExportCryptoState succeeded although it must refuse (keyed=%v encrypting=%v protected frames sent=%d received=%d send=%s readOpen=%v half-received message=%v)",
+					oi, keyed, modeOn, sentProt, recvProt, sendState, readOpen, stalled), st
 			case !mustRefuse && !either && err != nil:
 				return fmt.Sprintf("op %d: ExportCryptoState refused at a clean boundary of an established session: %v", oi, err), st
 			}
@@ -341,12 +387,18 @@ func genCase(t *rapid.T) Case {
 		c.Ops = append(c.Ops, Op{K: "a2b", Sizes: []int{rapid.SampledFrom(sizes).Draw(t, "w1")}}, Op{K: "b2a", Sizes: []int{rapid.SampledFrom(sizes).Draw(t, "w2")}})
 	}
 	for i := 0; i < n; i++ {
-		k := rapid.SampledFrom([]string{"a2b", "a2b", "b2a", "b2a", "bwrite", "bend", "bstart", "bopen", "bclose", "mode", "export", "handoff", "handoff", "handoff"}).Draw(t, "op")
+		k := rapid.SampledFrom([]string{"a2b", "a2b", "b2a", "b2a", "bwrite", "bend", "bstart", "bopen", "bclose", "mode", "export", "handoff", "handoff", "handoff", "bstall", "bresume"}).Draw(t, "op")
 		op := Op{K: k, N: rapid.IntRange(0, 100000).Draw(t, "n")}
 		if k == "a2b" || k == "b2a" || k == "bopen" {
 			nf := rapid.SampledFrom([]int{1, 1, 2, 3}).Draw(t, "nframes")
 			for j := 0; j < nf; j++ {
 				op.Sizes = append(op.Sizes, rapid.SampledFrom(sizes).Draw(t, "size"))
+			}
+		}
+		if k == "bstall" {
+			nf := rapid.SampledFrom([]int{2, 2, 3}).Draw(t, "stallframes")
+			for j := 0; j < nf; j++ {
+				op.Sizes = append(op.Sizes, rapid.SampledFrom([]int{1, 16, 100, 5000}).Draw(t, "size"))
 			}
 		}
 		c.Ops = append(c.Ops, op)
@@ -369,6 +421,36 @@ func record(c Case, st stats) {
 		ev.Class("refused-at-non-boundary")
 	}
 	ev.Count("handoffs", int64(st.handoffs))
+}
+
+// TestC15Directed: every kind of half-done state with an export attempt in the middle, then the hand-off
+// at the next clean boundary and traffic both ways.
+func TestC15Directed(t *testing.T) {
+	warm := []Op{{K: "a2b", Sizes: []int{40}}, {K: "b2a", Sizes: []int{17}}}
+	tail := []Op{{K: "handoff"}, {K: "a2b", Sizes: []int{5, 100}}, {K: "b2a", Sizes: []int{4096}}, {K: "handoff"}, {K: "b2a", Sizes: []int{0}}, {K: "a2b", Sizes: []int{1}}}
+	mids := [][]Op{
+		{{K: "bstall", Sizes: []int{100, 50}}, {K: "export"}, {K: "handoff"}, {K: "bresume"}, {K: "export"}, {K: "bclose"}},
+		{{K: "bstall", Sizes: []int{1, 16, 5000}}, {K: "handoff"}, {K: "bresume"}, {K: "bclose"}},
+		{{K: "bopen", Sizes: []int{100, 50}, N: 40}, {K: "export"}, {K: "handoff"}, {K: "bclose"}},
+		{{K: "bopen", Sizes: []int{100}, N: 0}, {K: "handoff"}, {K: "bclose"}},
+		{{K: "bwrite", N: 10}, {K: "export"}, {K: "handoff"}, {K: "bend"}, {K: "handoff"}, {K: "bstart"}},
+		{{K: "mode", N: 1}, {K: "handoff"}, {K: "mode", N: 0}},
+	}
+	bad := 0
+	for i, mid := range mids {
+		for prefix := 0; prefix < 4; prefix++ {
+			c := Case{Prefix: prefix, Salt: uint32(7000 + i*4 + prefix)}
+			c.Ops = append(append(append(c.Ops, warm...), mid...), tail...)
+			v, st := runCase(c)
+			record(c, st)
+			if v != "" && bad < 4 {
+				bad++
+				kit.Violation("C15", v, c)
+				t.Errorf("C15 violated: %s", v)
+			}
+		}
+	}
+	ev.Exhaustive("6 half-done states (message half-received after a failed open, twice; open read; unread open message; buffered send; crypto mode off) x 4 cleartext prefixes, each with export attempts inside and hand-offs after")
 }
 
 func TestC15Histories(t *testing.T) {
